@@ -613,3 +613,41 @@ def possibly_unassigned(f, rule=None):
                 work.append(s)
     return [(x.id, x, nd) for nd in cfg.nodes if nd.id in seen_ or nd is cfg.entry for x in info[nd.id][0]
             if x.id in locals_ and x.id not in IN[nd.id]]
+
+
+# ---------------------------------------------------------------------------------------------------------------
+# a boolean mask computed over a SELECTION of a container must not index the whole container
+
+def selection_mask_misuse(prog, rule, rels=None):
+    """m = X[I] <cmp> c      has one element per selected position (len(I)), so  X[m] = v  addresses the first len(I) positions
+    of X, not the selected ones.  Correct uses index the selection again (X[I][m], I[m]) or build positions from I and m."""
+    n_sites = 0
+    for f in prog.all_functions():
+        if rels and f.module.rel not in rels:
+            continue
+        masks = {}      # local -> (container text, selection text, stmt)
+        for n in walk_no_nested(f.node):
+            if isinstance(n, ast.Assign) and len(n.targets) == 1 and isinstance(n.targets[0], ast.Name):
+                cmp_ = [c for c in ast.walk(n.value) if isinstance(c, ast.Compare)]
+                if not cmp_:
+                    continue
+                sel = [s for c in cmp_ for s in ast.walk(c) if isinstance(s, ast.Subscript) and isinstance(s.value, ast.Name)
+                       and isinstance(s.slice, ast.Name)]
+                # the selection index must itself be a list of positions (assigned from a *_index()/nonzero()/where call)
+                for s_ in sel:
+                    idx = s_.slice.id
+                    defs = [a for a in walk_no_nested(f.node) if isinstance(a, ast.Assign) and any(isinstance(t, ast.Name) and t.id == idx for t in a.targets)]
+                    if defs and isinstance(defs[0].value, ast.Call) and re.search(r'(index|nonzero|where|keys)\b', src(defs[0].value.func)):
+                        masks[n.targets[0].id] = (s_.value.id, idx, n)
+        for name, (cont, idx, st) in masks.items():
+            for n in walk_no_nested(f.node):
+                if isinstance(n, ast.Subscript) and isinstance(n.value, ast.Name) and n.value.id == cont and isinstance(n.slice, ast.Name) and n.slice.id == name:
+                    n_sites += 1
+                    rule.fail(f.qualname, 'selection-mask-on-whole', '%s is a boolean array over the selection %s[%s] (one element per selected position) but is used to index %s '
+                              'itself: it addresses the leading positions of %s, not the selected ones' % (name, cont, idx, cont, cont), f, n)
+            used_ok = [n for n in walk_no_nested(f.node) if isinstance(n, ast.Name) and n.id == name and isinstance(n.ctx, ast.Load)]
+            if used_ok and not any(isinstance(n, ast.Subscript) and isinstance(n.value, ast.Name) and n.value.id == cont and isinstance(n.slice, ast.Name) and n.slice.id == name
+                                   for n in walk_no_nested(f.node)):
+                n_sites += 1
+                rule.ok(f.qualname, 'the mask %s over %s[%s] is combined with the selection again, not applied to %s as a whole' % (name, cont, idx, cont), f, st)
+    return n_sites
